@@ -128,6 +128,7 @@ def run(ck):
     ck.rule("R3", "a new mapping is tested for overlap and refused before insertion; two-sided interval predicate", floor=3)
     ck.rule("R4", "typed primitives record width/8 bytes at the accessed address before touching memory", floor=8)
     ck.rule("R5", "memory breakpoints are matched by interval overlap against recorded reads and writes", floor=2)
+    _access_log_rules(ck, tu)
 
     reads = sorted(n for n in tu.funcs if re.match(r"vm_MEM_LOOKUP_\d+$", n))
     writes = sorted(n for n in tu.funcs if re.match(r"vm_MEM_WRITE_\d+$", n))
@@ -297,3 +298,75 @@ def run(ck):
                         ok = True
         ck.ob("R5", "check_memory_breakpoint:%s" % kind, ok, VMC,
               "%s breakpoints are not matched with `bp.start < access.stop && access.start < bp.start + bp.size` over %s" % (kind, lst))
+
+
+def _access_log_rules(ck, tu):
+    """R6: "the recorded read and write ranges are exactly the bytes accessed since the last reset".
+    add_range_to_list either appends [addr1, addr2) or extends an existing entry; an extension must not lose bytes:
+      entry.stop  = addr2  only where entry.stop  == addr1 is known (the new range begins exactly where the entry ends), or the
+      entry.start = addr1  only where entry.start == addr2 is known,   new bound is a max/min with the old one;
+    every path records the range (extension or memory_access_list_add(access, addr1, addr2)); add_mem_read/add_mem_write pass
+    (addr, addr + size) to the list of their own kind."""
+    ck.rule("R6", "the access log never loses bytes: entries are extended only by exact concatenation (or max/min), every path records the range", floor=3)
+    f = tu.func("add_range_to_list")
+    ck.need(f is not None and len(f.params) == 3, "add_range_to_list(access, addr1, addr2) not found")
+    a1, a2 = f.params[1]["name"], f.params[2]["name"]
+    cfg = f.cfg()
+
+    def flow(nd, st):
+        return st
+
+    def edge(nd, label, st):
+        if nd.kind == "test" and label in (True, False):
+            return st | frozenset([(cast.ctext(nd.ast).replace(" ", ""), label)])
+        return st
+    IN, _o = cfg.forward(frozenset(), flow, lambda x, y: x & y, edge)
+    writes = []
+    for nd in cfg.nodes:
+        if nd.kind != "stmt" or nd.ast is None:
+            continue
+        for n in cast.walk(nd.ast):
+            if n.get("kind") == "BinaryOperator" and n.get("opcode") == "=":
+                lhs = cast.strip(n["inner"][0])
+                if lhs.get("kind") == "MemberExpr" and lhs.get("name") in ("stop", "start"):
+                    writes.append((nd, n, lhs))
+    ck.need(writes, "add_range_to_list: no extension of an existing entry found (merge logic rewritten)")
+    for (nd, n, lhs) in writes:
+        fld = lhs.get("name")
+        ltxt = cast.ctext(lhs).replace(" ", "")
+        rhs = cast.strip(n["inner"][1])
+        rtxt = cast.ctext(rhs).replace(" ", "")
+        want_new, want_old = (a2, a1) if fld == "stop" else (a1, a2)
+        facts = IN.get(nd.id, frozenset())
+        concat = ("%s==%s" % (ltxt, want_old), True) in facts or ("%s==%s" % (want_old, ltxt), True) in facts
+        monotone = rhs.get("kind") in ("ConditionalOperator", "CallExpr") and ltxt in rtxt and want_new in rtxt
+        ok = (rtxt == want_new and concat) or monotone
+        ck.ob("R6", "add_range_to_list:%s-extension" % fld, ok, VMC,
+              "`%s = %s` is reached without `%s == %s` being known (conditions known: %s) and is not a max/min with the old bound: "
+              "an access that starts inside the last recorded range and ends before its end shrinks the log"
+              % (ltxt, rtxt, ltxt, want_old, sorted(t for (t, l) in facts if l)[:3]))
+    # every path records
+    from sa.pathob import undischarged
+
+    def records(nd):
+        if nd.kind != "stmt" or nd.ast is None:
+            return False
+        for n in cast.walk(nd.ast):
+            if n.get("kind") == "CallExpr" and cast.callee(n) == "memory_access_list_add":
+                args = [cast.ctext(a).replace(" ", "") for a in cast.call_args(n)]
+                if args[1:] == [a1, a2]:
+                    return True
+        return any(w[0] is nd for w in writes)
+    p = undischarged(cfg, records)
+    ck.ob("R6", "add_range_to_list:every-path-records", p is None, VMC,
+          "a path through add_range_to_list neither extends an entry nor appends [%s, %s)" % (a1, a2))
+    for fn_, lst in (("add_mem_read", "memory_r"), ("add_mem_write", "memory_w")):
+        g = tu.func(fn_)
+        ck.need(g is not None, "%s not found" % fn_)
+        ok = False
+        for (cn, c) in g.calls():
+            if cn == "add_range_to_list":
+                args = [cast.ctext(a).replace(" ", "") for a in cast.call_args(c)]
+                pa, ps = g.params[1]["name"], g.params[2]["name"]
+                ok = lst in args[0] and args[1] == pa and args[2] in ("%s+%s" % (pa, ps), "%s+%s" % (ps, pa))
+        ck.ob("R6", "%s:range" % fn_, ok, VMC, "%s must record [addr, addr + size) in %s" % (fn_, lst))
